@@ -39,7 +39,7 @@ def shards(quick, mode=MODE, solvers=SOLVERS):
 
 def run(ctx):
     shs = shards(ctx.quick)
-    shs, res, stages, complete = L.explore(ctx, shs, increments=1 if ctx.quick else 2, reserve=45 if ctx.quick else 60)
+    shs, res, stages, complete = L.explore(ctx, shs, increments=1 if ctx.quick else 2, reserve=60 if ctx.quick else 60)
     if any(r is None for r in res):
         common.log("C15: not even the first bound completed")
         raise SystemExit(2)
